@@ -6,7 +6,8 @@ Thorough == "TIER" \in DOMAIN IOEnv /\ IOEnv.TIER = "thorough"
 x == TSym("x")
 B(k, a, b) == TOp(k, <<a, b>>)
 U(k, a) == TOp(k, <<a>>)
-Sub(S, n) == IF Thorough \/ Cardinality(S) <= n THEN S ELSE RandomSubset(n, S)
+\* (the thorough tier samples three times as many of each operand set)
+Sub(S, n) == LET m == IF Thorough THEN 3 * n ELSE n IN IF Cardinality(S) <= m THEN S ELSE RandomSubset(m, S)
 \* inner arguments vanishing at 0
 U0 == {x, B("mul", TInt(2), x), U("neg", x), B("pow", x, TInt(2)), B("add", x, B("pow", x, TInt(2))), B("div", x, TInt(2)), B("mul", x, B("add", x, TInt(1))),
        B("sub", B("pow", x, TInt(3)), x), B("div", x, B("add", TInt(1), x))}
